@@ -669,3 +669,593 @@ class DfltModel(Comp):
                     if len(p) > 5 and p[1] == "L" and "s" in p[3]:
                         out.append(nm[int(p[0])])
         return out
+
+
+# ---------------------------------------------------------------------------------------------------------------------
+# when: defaults exist exactly where the `when` conditions hold (oracle level: the reference is the Python class WhenRef,
+# the Coq model has no `when`)
+
+class WhenRef:
+    """One member of a family of modules whose default-carrying nodes are conditional, and an independent reference for
+    what a validation of an edited tree of it must give.
+
+    container box holds the controlling leaves sw / x / ll and, each with an optional `when` over them ("../sw = 'on'",
+    "count(../ll) > 1", "not(../x)"): a default leaf dl, a leaf dep whose `when` reads dl (itself conditional), an NP
+    container, a presence container, a leaf-list with defaults, a list with a default leaf, a choice (when on the choice,
+    on its default case, on its other case, on a choice nested in the default case; the leaves INHERIT those), a uses and
+    an augment (when inherited by their leaves); at the top level a leaf tdl conditional on the top-level leaf tsw.
+
+    The reference evaluates the conditions itself on its own record of the explicit content (RFC 7950 7.21.5, 7.6.1,
+    7.9.3): the result of a validation is the explicit content plus the defaults of the schema nodes whose when (own and
+    inherited) holds, in the case in use. An explicit node whose when is false makes the data invalid - unless libyang's
+    documented rule applies: a node whose when was evaluated to true before (LYD_WHEN_TRUE: set by an earlier validation,
+    or preset on nodes validation created itself) is deleted instead."""
+    CONDS = ("sw", "ll", "nx", None)
+    PARTS = ("dl", "npc", "pc", "dll", "item", "mode", "uses", "aug")
+    ORDER = ("dl", "dep", "npc", "pc", "dll", "item", "label", "ival", "value", "ug", "aug1", "aug2", "tdl")
+
+    def __init__(self, cfg):
+        self.cfg = cfg
+        self.c = cfg["c"]
+
+    # ---- schema
+    @classmethod
+    def random(cls, rng):
+        c = {}
+        for p in cls.PARTS:
+            if rng.random() < 0.7:
+                c[p] = rng.choice(cls.CONDS)
+        if "mode" in c or not c:
+            c.setdefault("mode", rng.choice(cls.CONDS))
+            for p in ("auto", "manual", "inner"):
+                c[p] = rng.choice(cls.CONDS + (None,))
+        return cls({"c": c, "dep": "dl" in c and rng.random() < 0.6 and not __import__("os").environ.get("NODEP"), "top": rng.random() < 0.4, "last": rng.random() < 0.4})
+
+    @staticmethod
+    def cond_text(cond, up):
+        return {"sw": "%ssw = 'on'" % up, "ll": "count(%sll) > 1" % up, "nx": "not(%sx)" % up}[cond]
+
+    def when(self, part, up="../"):
+        c = self.c.get(part)
+        return ' when "%s";' % self.cond_text(c, up) if c else ""
+
+    def yang(self):
+        import json
+        c = self.c
+        ctl = ['leaf sw { type string; }', 'leaf x { type string; }', 'leaf-list ll { type uint8; }']
+        b = []
+        if "dl" in c:
+            b.append('leaf dl {%s type string; default "dv"; }' % self.when("dl"))
+        if self.cfg["dep"]:
+            b.append('leaf dep { when "../dl = \'dv\'"; type string; default "depv"; }')
+        if "npc" in c:
+            b.append('container npc {%s leaf in1 { type string; default "i1"; } leaf in2 { type string; } }' % self.when("npc"))
+        if "pc" in c:
+            b.append('container pc {%s presence "p"; leaf pin { type string; default "p1"; } }' % self.when("pc"))
+        if "dll" in c:
+            b.append('leaf-list dll {%s type string; default "a"; default "b"; }' % self.when("dll"))
+        if "item" in c:
+            b.append('list item {%s key "k"; leaf k { type string; } leaf iv { type string; default "iv0"; } }' % self.when("item"))
+        if "mode" in c:
+            b.append('choice mode {%s default auto; case auto {%s leaf level { type string; default "1"; } leaf label '
+                     '{ type string; } choice inner {%s default i1; case i1 { leaf ilev { type string; default "9"; } } '
+                     'case i2 { leaf ival { type string; } } } } case manual {%s leaf value { type string; } leaf mdef '
+                     '{ type string; default "m"; } } }' % (self.when("mode", ""), self.when("auto", ""),
+                                                           self.when("inner", ""), self.when("manual", "")))
+        if "uses" in c:
+            b.append('uses grp {%s }' % self.when("uses", "") if c["uses"] else 'uses grp;')
+        body = b + ctl if self.cfg["last"] else ctl + b
+        top = ['leaf tsw { type string; }', 'leaf tdl { when "../tsw = \'on\'"; type string; default "t"; }'] if self.cfg["top"] else []
+        aug = ['augment "/m1:box" {%s leaf aug1 { type string; default "a1"; } leaf aug2 { type string; } }' % self.when("aug", "")] \
+            if "aug" in c else []
+        return ('module m1 { yang-version 1.1; namespace "urn:m1"; prefix m1; description "cfg %s"; '
+                'grouping grp { leaf ug { type string; default "u"; } } %s container box { %s } %s }'
+                % (hexs(json.dumps(self.cfg, sort_keys=True)), " ".join(top), " ".join(body), " ".join(aug)))
+
+    @classmethod
+    def of_yang(cls, text):
+        import json
+        from vlib import unhex
+        return cls(json.loads(unhex(text.split('description "cfg ')[1].split('"')[0]).decode()))
+
+    # ---- state: the explicit content, the units present in the tree, the units flagged LYD_WHEN_TRUE
+    @staticmethod
+    def init():
+        return {"sw": None, "x": None, "tsw": None, "ll": [], "E": {}, "P": set(), "WT": set()}
+
+    @staticmethod
+    def unit(key):
+        return key.split("/")[0]
+
+    def explicit_units(self, st):
+        """(unit, key) of every explicit conditional node"""
+        out = []
+        for k, v in st["E"].items():
+            if k == "dll":
+                out += [("dll:" + x, k) for x in v]
+            elif k == "item":
+                out += [("item:" + x, k) for x in v]
+            elif "/" not in k:
+                out.append((k, k))
+            elif self.unit(k) not in [u for u, _ in out]:
+                out.append((self.unit(k), k))
+        seen, res = set(), []
+        for u, k in out:
+            if u not in seen:
+                seen.add(u)
+                res.append((u, k))
+        return sorted(res, key=lambda p: self.ORDER.index(p[0].split(":")[0]))
+
+    def touch(self, st, u):
+        if u not in st["P"]:
+            st["WT"].discard(u)
+        st["P"].add(u)
+
+    def drop(self, st, u):
+        st["P"].discard(u)
+        st["WT"].discard(u)
+
+    def remove_unit(self, st, u):
+        E = st["E"]
+        if ":" in u:
+            k, v = u.split(":", 1)
+            if k == "dll":
+                E["dll"].remove(v)
+            else:
+                E["item"].pop(v)
+            if not E[k]:
+                E.pop(k)
+        else:
+            for k in [k for k in E if self.unit(k) == u]:
+                E.pop(k)
+        self.drop(st, u)
+
+    def edit_new(self, st, path, val):
+        """lyd_new_path(LYD_NEW_PATH_UPDATE) of an explicit node; returns False for a path outside the family"""
+        E = st["E"]
+        if path in ("/m1:box/sw", "/m1:box/x", "/m1:tsw"):
+            st[path.split(":")[-1].split("/")[-1]] = val
+        elif path.startswith("/m1:box/ll[.='"):
+            v = int(path.split("'")[1])
+            if v not in st["ll"]:
+                st["ll"].append(v)
+        elif path.startswith("/m1:box/dll[.='"):
+            v = path.split("'")[1]
+            if v not in E.setdefault("dll", []):
+                E["dll"].append(v)
+            self.touch(st, "dll:" + v)
+        elif path.startswith("/m1:box/item[k='"):
+            k = path.split("'")[1]
+            E.setdefault("item", {}).setdefault(k, None)
+            if path.endswith("/iv"):
+                E["item"][k] = val
+            self.touch(st, "item:" + k)
+        elif path == "/m1:tdl":
+            E["tdl"] = val
+            self.touch(st, "tdl")
+        elif path.startswith("/m1:box/"):
+            k = path[len("/m1:box/"):]
+            if k == "pc" or k.startswith("pc/"):
+                E["pc"] = True
+            if k.startswith("npc/"):
+                E["npc"] = True               # the container object: exists (and is judged) even when emptied again
+            if k != "pc":
+                E[k] = val
+            self.touch(st, self.unit(k))
+        else:
+            return False
+        return True
+
+    def edit_free(self, st, path):
+        E = st["E"]
+        if path in ("/m1:box/sw", "/m1:box/x", "/m1:tsw"):
+            st[path.split(":")[-1].split("/")[-1]] = None
+        elif path.startswith("/m1:box/ll[.='"):
+            st["ll"].remove(int(path.split("'")[1]))
+        elif path.startswith("/m1:box/dll[.='"):
+            self.remove_unit(st, "dll:" + path.split("'")[1])
+        elif path.startswith("/m1:box/item[k='"):
+            self.remove_unit(st, "item:" + path.split("'")[1])
+        elif path == "/m1:tdl":
+            self.remove_unit(st, "tdl")
+        elif path.startswith("/m1:box/"):
+            k = path[len("/m1:box/"):]
+            if "/" in k:
+                E.pop(k)                      # a child of npc / pc: the container stays
+            else:
+                self.remove_unit(st, k)
+        else:
+            return False
+        return True
+
+    # ---- the conditions, evaluated on the record
+    def env(self, st):
+        return {"sw": st["sw"] == "on", "ll": len(st["ll"]) > 1, "nx": st["x"] is None, None: True}
+
+    def dl_value(self, st):
+        if "dl" not in self.c:
+            return None
+        if "dl" in st["E"]:
+            return st["E"]["dl"]
+        return "dv" if self.holds(st, "dl") else None
+
+    def holds(self, st, unit):
+        e = self.env(st)
+        g = lambda p: e[self.c.get(p)]
+        u = unit.split(":")[0]
+        if u == "dep":
+            return self.dl_value(st) == "dv"
+        if u in ("dl", "npc", "pc", "dll", "item"):
+            return g(u)
+        if u in ("level", "label"):
+            return g("mode") and g("auto")
+        if u in ("ilev", "ival"):
+            return g("mode") and g("auto") and g("inner")
+        if u in ("value", "mdef"):
+            return g("mode") and g("manual")
+        if u == "ug":
+            return g("uses")
+        if u in ("aug1", "aug2"):
+            return g("aug")
+        if u == "tdl":
+            return st["tsw"] == "on"
+        raise KeyError(unit)
+
+    def false_units(self, st):
+        return [u for u, _ in self.explicit_units(st) if not self.holds(st, u)]
+
+    def resolve(self, st):
+        """what a validation does to the explicit nodes under a false when: None, or the unit that makes the data invalid"""
+        deleted = []
+        for u, _ in self.explicit_units(st):
+            if (":" in u and u.split(":")[1] not in (st["E"].get(u.split(":")[0]) or [])) or \
+                    (":" not in u and not any(self.unit(k) == u for k in st["E"])):
+                continue
+            if not self.holds(st, u):
+                if u not in st["WT"]:
+                    return u, deleted
+                self.remove_unit(st, u)
+                deleted.append(u)
+        return None, deleted
+
+    def nf(self, st):
+        """the tree after a successful validation: [name, value | None, default?, children]; also refreshes P / WT"""
+        E = st["E"]
+        P = set()
+        leaf = lambda n, v, d=False: [n, v, d, []]
+
+        def term(key, unit, dval, out):
+            if key in E:
+                out.append(leaf(key.split("/")[-1], E[key]))
+                P.add(unit)
+            elif dval is not None and self.holds(st, unit):
+                out.append(leaf(key.split("/")[-1], dval, True))
+                P.add(unit)
+
+        top = []
+        if self.cfg["top"]:
+            if st["tsw"] is not None:
+                top.append(leaf("tsw", st["tsw"]))
+            term("tdl", "tdl", "t", top)
+        ctl = []
+        if st["sw"] is not None:
+            ctl.append(leaf("sw", st["sw"]))
+        if st["x"] is not None:
+            ctl.append(leaf("x", st["x"]))
+        ctl += [leaf("ll", str(v)) for v in sorted(st["ll"])]
+        b = []
+        c = self.c
+        if "dl" in c:
+            term("dl", "dl", "dv", b)
+        if self.cfg["dep"]:
+            term("dep", "dep", "depv", b)
+        if "npc" in c and (self.holds(st, "npc") or "npc" in E):
+            ch = []
+            term("npc/in1", "npc", "i1", ch)
+            term("npc/in2", "npc", None, ch)
+            b.append(["npc", None, all(x[2] for x in ch), ch])
+            P.add("npc")
+            if all(x[2] for x in ch):
+                E.pop("npc", None)            # only defaults inside: a default container from now on
+        if "pc" in c and "pc" in E:
+            ch = []
+            term("pc/pin", "pc", "p1", ch)
+            b.append(["pc", None, False, ch])
+            P.add("pc")
+        if "dll" in c:
+            if E.get("dll"):
+                b += [leaf("dll", v) for v in E["dll"]]
+                P.update("dll:" + v for v in E["dll"])
+            elif self.holds(st, "dll"):
+                b += [leaf("dll", "a", True), leaf("dll", "b", True)]
+                P.update(["dll:a", "dll:b"])
+        if "item" in c:
+            for k, iv in (E.get("item") or {}).items():
+                b.append(["item", None, False, [leaf("k", k), leaf("iv", iv) if iv is not None else leaf("iv", "iv0", True)]])
+                P.add("item:" + k)
+        if "mode" in c:
+            if "label" in E or "ival" in E:
+                term("level", "level", "1", b)
+                term("label", "label", None, b)
+                if "ival" in E:
+                    term("ival", "ival", None, b)
+                else:
+                    term("ilev", "ilev", "9", b)
+            elif "value" in E:
+                term("value", "value", None, b)
+                term("mdef", "mdef", "m", b)
+            else:
+                term("level", "level", "1", b)
+                term("ilev", "ilev", "9", b)
+        if "uses" in c:
+            term("ug", "ug", "u", b)
+        kids = b + ctl if self.cfg["last"] else ctl + b
+        if "aug" in c:
+            term("aug1", "aug1", "a1", kids)
+            term("aug2", "aug2", None, kids)
+        top.append(["box", None, all(x[2] for x in kids), kids])
+        st["P"] = P
+        st["WT"] = set(P)
+        return top
+
+    # ---- rendering
+    def xml(self, st):
+        """the explicit content as a document"""
+        E = st["E"]
+        el = lambda n, v: "<%s>%s</%s>" % (n, v, n)
+        out = ""
+        if st["tsw"] is not None:
+            out += '<tsw xmlns="urn:m1">%s</tsw>' % st["tsw"]
+        if "tdl" in E:
+            out += '<tdl xmlns="urn:m1">%s</tdl>' % E["tdl"]
+        b = ""
+        if st["sw"] is not None:
+            b += el("sw", st["sw"])
+        if st["x"] is not None:
+            b += el("x", st["x"])
+        b += "".join(el("ll", v) for v in st["ll"])
+        for k in ("dl", "dep"):
+            if k in E:
+                b += el(k, E[k])
+        if "npc" in E:
+            b += el("npc", "".join(el(k[4:], E[k]) for k in ("npc/in1", "npc/in2") if k in E))
+        if "pc" in E:
+            b += el("pc", el("pin", E["pc/pin"]) if "pc/pin" in E else "")
+        b += "".join(el("dll", v) for v in E.get("dll", []))
+        for k, iv in (E.get("item") or {}).items():
+            b += el("item", el("k", k) + (el("iv", iv) if iv is not None else ""))
+        for k in ("label", "ival", "value", "ug", "aug1", "aug2"):
+            if k in E:
+                b += el(k, E[k])
+        if b:
+            out += '<box xmlns="urn:m1">%s</box>' % b
+        return out
+
+    @classmethod
+    def canon(cls, nodes):
+        """instances of one leaf-list / list: order not compared"""
+        out, i = [], 0
+        nodes = [[n, v, d, cls.canon(ch)] for n, v, d, ch in nodes]
+        while i < len(nodes):
+            j = i
+            while j < len(nodes) and nodes[j][0] == nodes[i][0]:
+                j += 1
+            out += sorted(nodes[i:j], key=repr)
+            i = j
+        return out
+
+    @classmethod
+    def show(cls, nodes, depth=0):
+        s = ""
+        for n, v, d, ch in nodes:
+            s += "%s%s%s%s " % ("." * depth, n, "" if v is None else "=" + v, "(d)" if d else "") + cls.show(ch, depth + 1)
+        return s
+
+    @staticmethod
+    def of_dump(dump):
+        """lyx dump (module m1 only) -> the same nested form"""
+        from vlib import unhex
+        root = []
+        stack = [(-1, root)]
+        for sg in DfltModel.only_m1(dump).split(";"):
+            if not sg or sg == "empty":
+                continue
+            p = sg.split(":")
+            depth, name, val, flags = int(p[0]), p[2], p[3], p[4] if len(p) > 4 else ""
+            node = [name, unhex(val[1:]).decode() if val.startswith("=") else None, "d" in flags, []]
+            while stack[-1][0] >= depth:
+                stack.pop()
+            stack[-1][1].append(node)
+            stack.append((depth, node[3]))
+        return root
+
+
+class WhenDefaults(oracles_mod.Oracle):
+    """C07 with `when`: after a validation the default nodes are exactly those whose when (own, or inherited from a choice,
+    case, uses or augment) holds, explicit nodes under a false when are rejected - or deleted if their when had been true
+    before (LYD_WHEN_TRUE) -, the returned change set applied to the tree before gives the tree after, and a second
+    validation changes and reports nothing. Histories: validate -> flip a controlling leaf -> validate -> flip back ->
+    validate with explicit nodes created / removed in between (lyd_new_path + lyd_validate_all), and the explicit content
+    parsed with validation (lyd_parse_data). Expected trees: WhenRef (python, conditions evaluated on its own record)."""
+    name = "when-defaults"
+
+    def gen(self, rng, tier, scale=1.0):
+        L = []
+        for i in range(self.n(tier, 500, 8000, scale)):
+            ref = WhenRef.random(rng)
+            st = ref.init()
+            s = Script()
+            s.ctx(opts=0x04)
+            s.mod(ref.yang())
+            flips = []
+            for rnd in range(rng.choice([3, 4, 5, 6])):
+                ok = True
+                # the controlling leaves first: most explicit nodes are then created where their when holds, validated
+                # (LYD_WHEN_TRUE) and meet a false when only in a later round
+                ne = rng.choice([0, 1, 1, 2, 3]) if rnd else rng.choice([0, 0, 1, 2, 4])
+                for what in sorted(rng.choice(["ctl", "ctl", "new", "new", "free"]) for _ in range(ne)):
+                    self.edit(rng, ref, st, s, flips, what)
+                if flips and rng.random() < 0.5:
+                    p, v = flips.pop()                  # flip a controlling leaf back
+                    self.emit(ref, st, s, p, v)
+                if rng.random() < 0.3:
+                    s.parse(5, "x", ref.xml(st), popts=PARSE_STRICT, vopts=0)
+                    s.dump(5, 0)
+                s.add("dup", "t0", "t1", oracles_mod.DUPF)
+                s.add("val", "t0", "c0", 0, "t2")
+                s.dump(0, 0)
+                s.add("apply", "t1", "t2")
+                s.add("cmp", "t1", "t0", oracles_mod.CMPX)
+                s.add("val", "t0", "c0", 0, "t3")
+                s.dump(0, 0)
+                s.dump(3, 0)
+                bad, _ = ref.resolve(st)
+                if bad:
+                    break
+                ref.nf(st)
+            L.append(s.line())
+        return L
+
+    @staticmethod
+    def emit(ref, st, s, path, val):
+        if val is None:
+            ref.edit_free(st, path)
+            s.add("freepath", "t0", hexs(path))
+        else:
+            ref.edit_new(st, path, val)
+            s.add("newpath", "t0", "c0", NEWPATH_UPDATE, hexs(path), hexs(val) if val != "~" else "~")
+
+    def edit(self, rng, ref, st, s, flips, what):
+        c, E = ref.c, st["E"]
+        if what == "ctl":
+            # a controlling leaf
+            k = rng.choice(["sw", "sw", "x", "ll", "ll"] + (["tsw"] if ref.cfg["top"] else []))
+            if k in ("sw", "tsw"):
+                p = "/m1:box/sw" if k == "sw" else "/m1:tsw"
+                new = rng.choice([v for v in ("on", "off", None) if v != st[k]])
+                flips.append((p, st[k]))
+                self.emit(ref, st, s, p, new)
+            elif k == "x":
+                flips.append(("/m1:box/x", st["x"]))
+                self.emit(ref, st, s, "/m1:box/x", None if st["x"] is not None else "here")
+            else:
+                if len(st["ll"]) > 1 and rng.random() < 0.6:
+                    v = rng.choice(st["ll"])
+                    flips.append(("/m1:box/ll[.='%d']" % v, "~"))
+                    self.emit(ref, st, s, "/m1:box/ll[.='%d']" % v, None)
+                else:
+                    for v in rng.sample([1, 2, 3, 4], 2 if not st["ll"] else 1):
+                        if v not in st["ll"]:
+                            flips.append(("/m1:box/ll[.='%d']" % v, None))
+                            self.emit(ref, st, s, "/m1:box/ll[.='%d']" % v, "~")
+            return
+        if what == "free" and E:
+            # remove an explicit node
+            u, k = rng.choice(ref.explicit_units(st))
+            if ":" in u:
+                kk, v = u.split(":", 1)
+                self.emit(ref, st, s, "/m1:box/dll[.='%s']" % v if kk == "dll" else "/m1:box/item[k='%s']" % v, None)
+            elif u == "tdl":
+                self.emit(ref, st, s, "/m1:tdl", None)
+            elif u in ("npc", "pc") and rng.random() < 0.5:
+                self.emit(ref, st, s, "/m1:box/" + rng.choice([x for x in E if ref.unit(x) == u and "/" in x] or [u]), None)
+            else:
+                self.emit(ref, st, s, "/m1:box/" + u, None)
+            return
+        # create an explicit conditional node
+        cands = []
+        if "dl" in c:
+            cands += [("dl", "e1"), ("dl", "e2")]
+        if ref.cfg["dep"]:
+            cands.append(("dep", "e1"))
+        if "npc" in c:
+            cands += [("npc/in1", "e1"), ("npc/in2", "e2")]
+        if "pc" in c:
+            cands += [("pc", "~"), ("pc/pin", "e1")]
+        if "dll" in c:
+            cands += [("dll[.='%s']" % v, "~") for v in "pqr"]
+        if "item" in c:
+            cands += [("item[k='k1']", "~"), ("item[k='k2']/iv", "e1")]
+        if "mode" in c:
+            cands += [("label", "e1"), ("ival", "e1"), ("value", "e1"), ("value", "e2")]
+        if "uses" in c:
+            cands.append(("ug", "e1"))
+        if "aug" in c:
+            cands += [("aug1", "e1"), ("aug2", "e1")]
+        if ref.cfg["top"]:
+            cands.append(("/m1:tdl", "e1"))
+        if rng.random() < 0.85:
+            unit = lambda k: "tdl" if k == "/m1:tdl" else k.split("[")[0].split("/")[0]
+            cands = [(k, v) for k, v in cands if ref.holds(st, unit(k))] or cands
+        k, v = rng.choice(cands)
+        if k in ("label", "ival") and "value" in E:
+            self.emit(ref, st, s, "/m1:box/value", None)
+        if k == "value":
+            for o in ("label", "ival"):
+                if o in E:
+                    self.emit(ref, st, s, "/m1:box/" + o, None)
+        self.emit(ref, st, s, k if k.startswith("/") else "/m1:box/" + k, v)
+
+    def judge(self, line, out):
+        import copy
+        from vlib import unhex
+        if oracles_mod.crashed(out):
+            return (None, "crash: " + out)
+        r = results(out)
+        cmds = line.split("\t")[1:]
+        if len(r) < len(cmds) or r[0] != "0" or r[1] != "0":
+            return (None, "the module of the case is not accepted: " + " | ".join(r[:2])[:200])
+        ref = WhenRef.of_yang(unhex(cmds[1].split(" ")[3]).decode())
+        st = ref.init()
+        k, rnd = 2, 0
+        while k < len(cmds):
+            w = cmds[k].split(" ")
+            if w[0] == "newpath":
+                if not ref.edit_new(st, unhex(w[4]).decode(), None if w[5] == "~" else unhex(w[5]).decode()) or rc(r[k]) != 0:
+                    return (None, "lyd_new_path failed: %s -> %s" % (unhex(w[4]).decode(), r[k]))
+            elif w[0] == "freepath":
+                if not ref.edit_free(st, unhex(w[2]).decode()) or r[k] != "0":
+                    return (None, "node to free not found: %s -> %s" % (unhex(w[2]).decode(), r[k]))
+            elif w[0] == "parse":
+                if unhex(w[6]).decode() != ref.xml(st):
+                    return None                       # not a document of the explicit content: not judged
+                bad = ref.false_units(st)
+                if bad and rc(r[k]) == 0:
+                    return (None, "parsing with validation accepts the explicit node %s whose when is false: %s"
+                            % (bad[0], ref.xml(st)))
+                if not bad:
+                    if rc(r[k]) != 0:
+                        return (None, "parsing with validation rejects valid data (%s): %s" % (r[k][:150], ref.xml(st)))
+                    want = ref.canon(ref.nf(copy.deepcopy(st)))
+                    got = ref.canon(ref.of_dump(r[k + 1]))
+                    if got != want:
+                        return (None, "parsed with validation, %s gives [%s], expected (when conditions evaluated by the "
+                                      "reference) [%s]" % (ref.xml(st), ref.show(got), ref.show(want)))
+            elif w[0] == "dup" and w[1] == "t0" and w[2] == "t1":
+                rnd += 1
+                before = ref.xml(st)
+                bad, deleted = ref.resolve(st)
+                if bad:
+                    if rc(r[k + 1]) == 0:
+                        return (None, "round %d: validation accepts the explicit node %s whose when is false and was never "
+                                      "true (explicit content %s)" % (rnd, bad, before))
+                    return None
+                if rc(r[k + 1]) != 0:
+                    return (None, "round %d: validation rejects valid data (%s); explicit content %s, nodes whose when "
+                                  "turned false: %s" % (rnd, r[k + 1][:150], before, deleted))
+                want = ref.canon(ref.nf(st))
+                got = ref.canon(ref.of_dump(r[k + 2]))
+                if got != want:
+                    return (None, "round %d: after validation of explicit content %s (auto-deleted: %s) the tree is [%s], "
+                                  "expected [%s]" % (rnd, before, deleted, ref.show(got), ref.show(want)))
+                if rc(r[k + 3]) != 0 or r[k + 4] != "0":
+                    return (None, "round %d: the returned change set applied to the tree before does not give the tree after "
+                                  "(apply %s, compare %s)" % (rnd, r[k + 3], r[k + 4]))
+                if rc(r[k + 5]) != 0 or DfltModel.only_m1(r[k + 6]) != DfltModel.only_m1(r[k + 2]):
+                    return (None, "round %d: the second validation changed the tree (%s): [%s]"
+                            % (rnd, r[k + 5], ref.show(ref.of_dump(r[k + 6]))))
+                if r[k + 7] != "empty":
+                    return (None, "round %d: the second validation reports a non-empty change set" % rnd)
+                k += 7
+            k += 1
+        return None
